@@ -146,6 +146,7 @@ func (g *Gen) Setup(t uint32) []Cand {
 		{"suicide-self", fx.RtSuicideSelf()},
 		{"recursive", fx.RtRecursive()},
 		{"creator", fx.RtCreateChild(fx.RtStore(5, 5), 6)},
+		{"callcode-value-loop", fx.RtCallcodeValueLoop(700, common.HexToAddress("0x00000000000000000000000000000000000dead1"))},
 	}
 	for i, z := range zoo {
 		tx := g.B.Create(g.W.Founder, fx.InitCode(z.rt), big.NewInt(0), 1500000, exp+100+uint64(i))
@@ -290,6 +291,13 @@ func (g *Gen) one(t uint32, height uint32) ([]Cand, bool) {
 	if g.Cfg.Discards && g.Cfg.Boxes && g.Cfg.Mode == "" && g.R.Chance(1, 8) {
 		if c, ok := g.storePattern(t); ok {
 			return c, true
+		}
+	}
+	if g.Cfg.Mode == "" && g.R.Chance(1, 30) {
+		// a contract that repeats a CALLCODE with value: what a value-bearing call costs and gives back (stipend) decides
+		// whether the gas accounting of the transaction stays within its limit
+		if a := g.ByKind("callcode-value-loop"); a != (common.Address{}) {
+			return []Cand{g.cand(g.B.Call(k, a, fx.LEMO(1), uint64(g.R.Range(150000, 400000)), nil, exp), "call-callcode-value-loop", "any")}, true
 		}
 	}
 	pick := g.R.Intn(100)
